@@ -10,6 +10,10 @@
 (*   zip    : "p" (constant power) | "mix" (30 % Z, 20 % I) | "z" (100 % Z)    ZIP fractions of load ld0              *)
 (*   vdl    : voltage_depend_loads        mode : "ac" | "dc"         tmodel : trafo_model "t" | "pi"                   *)
 (*   qlims  : enforce_q_lims              qtight : gens have tight reactive limits                                    *)
+(*   qstag  : STAGGERED limits (effective with qtight, g2 and g0 in service): the gens at bus 1 keep the tight limits,  *)
+(*            the limit of g2 at bus 2 lies between its reactive output at the set points and its output once the gens  *)
+(*            of bus 1 are fixed at their limits -- the limits become binding in successive passes of the enforcement  *)
+(*            (harness/balance.py stagger() places the limit by two auxiliary power flows; C.inp.stag reports success)   *)
 (*   dslack : distributed_slack           wts  : slack weight pattern (1..3)                                          *)
 (*   scal   : "one" | "half" scaling of ld0 / sg0 / g2   shvn : "bus" | "other" rated voltage of the shunt             *)
 (*   sn     : net.sn_mva 1 | 10      ls2g : TRUE = default back-end choice (lightsim2grid where possible), FALSE = pandapower's *)
